@@ -190,6 +190,9 @@ func appendGrows(st *ssa.Store) bool {
 }
 
 func runC02(p *Prog, r *Report) {
+	// R13: a weight of 0 stays 0 under the rebalancer (shared with C10.R2); R14: every lock of the balancers is released on every path (shared with C09.R3)
+	r.Borrow(p, runC10, map[string]string{"C10.R2": "C02.R13"}, nil)
+	r.Floor("C02.R14", c09Pairing(p, r, "C02.R14", "roundrobin"), 3, "lock acquisitions in package roundrobin")
 	// R12: the rotation is not restarted behind the user's back: the rebalancer re-applies weights to the balancer only after changing one (shared with C10.R3)
 	r.Borrow(p, runC10, map[string]string{"C10.R3": "C02.R12"}, func(o Ob) bool {
 		return strings.Contains(o.Construct, "applies weights only after changing") || strings.Contains(o.Construct, "returns true exactly when it applied weights")
